@@ -240,6 +240,46 @@ def ref_value(root, x, floor=2.0 ** -23):
     return go(root)
 
 
+def ref_logvalue(root, x, floor=2.0 ** -23):
+    """float64 LOG-value of the circuit at row x (NaN = marginalised) from the parameters of the objects, by plain recursion with
+    a max-shifted log-sum-exp: no under- or overflow for peaked densities (log-values of +100) or far outliers (-1e5). Table and
+    continuous leaves only (no Chow-Liu leaves)."""
+    memo = {}
+
+    def lse(terms):
+        terms = [t for t in terms if t > -math.inf]
+        if not terms:
+            return -math.inf
+        m = max(terms)
+        return m + math.log(sum(math.exp(t - m) for t in terms))
+
+    def go(n):
+        if id(n) in memo:
+            return memo[id(n)]
+        if isinstance(n, Sum):
+            r = lse([(math.log(float(w)) if float(w) > 0 else -math.inf) + go(c) for w, c in zip(n.weights, n.children)])
+        elif isinstance(n, Product):
+            r = sum(go(c) for c in n.children)
+        elif isinstance(n, BinaryCLT):
+            raise Infra('ref_logvalue: Chow-Liu leaf')
+        else:
+            xv = x[n.scope[0]]
+            if np.isnan(xv):
+                r = 0.0
+            elif isinstance(n, Bernoulli):
+                p = float(n.p) if int(xv) == 1 else 1.0 - float(n.p)
+                r = math.log(p) if p > 0 else -math.inf
+            elif isinstance(n, Categorical):
+                cats = [int(c) for c in n.categories]
+                p = float(n.probabilities[cats.index(int(xv))]) if int(xv) in cats else 0.0
+                r = math.log(p) if p > 0 else -math.inf
+            else:
+                r = ref_logdensity(n, float(xv), floor)
+        memo[id(n)] = r
+        return r
+    return go(root)
+
+
 # ----------------------------------------------------------------------------- generators
 def rand_leaf(rs, v, kinds, ncat=None):
     k = kinds[rs.randint(len(kinds))]
